@@ -10,8 +10,9 @@ from harness.props import attrs_common as ac
 
 NAMES = ['id', 'data-x', 'checked', 'title', 'ID', '1x']
 VALUES = ['v', '', 'a"b', 'two words', '7', 'é']
-READ_NAMES = ['id', 'data-x', 'checked', 'title', 'ID', 'CHECKED', 'class', 'style', 'hidden', 'zz']
+READ_NAMES = ['id', 'data-x', 'checked', 'title', 'ID', 'CHECKED', 'class', 'style', 'hidden', 'zz', 'lang', 'data-flag']
 BINARY = None
+_SENTINEL = 'default-sentinel-value'
 
 
 def binary_names():
@@ -239,6 +240,14 @@ class C08(core.Check):
                 g2 = t.attributes[n]
                 if g2 != sd.get(ln):
                     return '%s: attributes[%r] = %r, mapping says %r' % (when, n, g2, sd.get(ln))
+                # the default of get / getAttribute is used exactly when the name is absent (a value-less attribute is present)
+                exp3 = sd[ln] if ln in sd else _SENTINEL
+                g3 = t.attributes.get(n, _SENTINEL)
+                if g3 is not exp3 and g3 != exp3:
+                    return '%s: attributes.get(%r, default) = %r, mapping says %s' % (when, n, g3, 'the default' if exp3 is _SENTINEL else repr(exp3))
+                g4 = t.getAttribute(n, _SENTINEL)
+                if g4 is not exp3 and g4 != exp3:
+                    return '%s: getAttribute(%r, default) = %r, mapping says %s' % (when, n, g4, 'the default' if exp3 is _SENTINEL else repr(exp3))
         # ordered views
         plain = [[n, v] for n, v in ((k, v) for k, v in t.attributes.items()) if n not in special]
         if plain != [list(e) for e in spec]:
